@@ -276,11 +276,12 @@ def specs(tier, concrete_heavy=False):
     return S
 
 
-def _flat(v):
+def _flat(v, _seen=None):
+    _seen = set() if _seen is None else _seen
     if isinstance(v, (list, tuple)):
         out = []
         for x in v:
-            out += _flat(x)
+            out += _flat(x, _seen)
         return out
     try:
         import numpy as np
@@ -289,9 +290,12 @@ def _flat(v):
     except Exception:  # noqa
         pass
     if hasattr(v, '__dict__') and not isinstance(v, (types.ModuleType, types.FunctionType, type)) and type(v).__module__.startswith('geodepy'):
+        if id(v) in _seen:           # objects that link back to one another (a cycle) are flattened once
+            return ['<cycle %s>' % type(v).__name__]
+        _seen.add(id(v))
         out = []
         for k in sorted(vars(v)):
-            out += _flat(getattr(v, k))
+            out += _flat(getattr(v, k), _seen)
         return out
     return [v]
 
